@@ -24,6 +24,7 @@ import (
 	"net"
 	"os"
 	"path/filepath"
+	"sync"
 	"time"
 
 	"github.com/TheCacophonyProject/event-reporter/eventclient"
@@ -54,6 +55,9 @@ var (
 	version    = "<not set>"
 	processor  *motion.MotionProcessor
 	headerInfo *headers.HeaderInfo = nil
+	// stateMu guards processor and headerInfo: handleConn replaces them on
+	// every camera connection while the D-Bus service goroutines read them.
+	stateMu sync.RWMutex
 
 	frameLogIntervalFirstMin = 15
 	frameLogInterval         = 60 * 5
@@ -135,6 +139,18 @@ func checkConfigChanges(conf *Config, configDir string) error {
 	}
 }
 
+func currentProcessor() *motion.MotionProcessor {
+	stateMu.RLock()
+	defer stateMu.RUnlock()
+	return processor
+}
+
+func currentHeaderInfo() *headers.HeaderInfo {
+	stateMu.RLock()
+	defer stateMu.RUnlock()
+	return headerInfo
+}
+
 func runMain() error {
 	args := procArgs()
 
@@ -206,8 +222,10 @@ func handleConn(conn net.Conn, conf *Config) error {
 	leptondController.SetAutoFFC(true)
 	totalFrames := 0
 	reader := bufio.NewReader(conn)
-	var err error
-	headerInfo, err = headers.ReadHeaderInfo(reader)
+	newHeaderInfo, err := headers.ReadHeaderInfo(reader)
+	stateMu.Lock()
+	headerInfo = newHeaderInfo
+	stateMu.Unlock()
 	if err != nil {
 		return err
 	}
@@ -237,7 +255,7 @@ func handleConn(conn net.Conn, conf *Config) error {
 		constantRecorder.SetAsConstantRecorder()
 	}
 
-	processor = motion.NewMotionProcessor(
+	newProcessor := motion.NewMotionProcessor(
 		parseFrame,
 		&conf.Motion,
 		&conf.Recorder,
@@ -248,6 +266,9 @@ func handleConn(conn net.Conn, conf *Config) error {
 		constantRecorder,
 		NewCPTVFileRecorder(conf, headerInfo, headerInfo.Brand(), headerInfo.Model(), headerInfo.CameraSerial(), headerInfo.Firmware()),
 	)
+	stateMu.Lock()
+	processor = newProcessor
+	stateMu.Unlock()
 
 	log.Print("reading frames")
 
